@@ -428,6 +428,18 @@ class HtmlToAst(HTMLParser):
         """Parse the source string."""
         self.struct.clear()
         super().feed(source)
+        rest = self.rawdata
+        if (
+            len(rest) == 2
+            and rest[0] == "&"
+            and rest.isascii()
+            and rest[1].isalpha()
+            and not self.cdata_elem
+        ):
+            # a final "&" + one letter ("AT&T"): on close, html.parser (python 3.12)
+            # skips this ampersand without reporting it
+            self.handle_data(rest)
+            self.rawdata = ""
         # flush what the parser still buffers (e.g. an unterminated tag at the end)
         self.close()
         return self.struct.outmost
